@@ -68,6 +68,7 @@ class Run(object):
         self.s = self.su.IndexedSet()
         self.L = []
         self.stats = stats
+        self.derived = []     # (IndexedSet produced by an earlier algebra op, its expected list, op name)
 
     def fail(self, read, detail):
         raise common.Violation(read, detail)
@@ -128,6 +129,19 @@ class Run(object):
     def refresh(self):
         self._set = set(self.L)
         self._pos = {x: i for i, x in enumerate(self.L)}
+
+    def check_derived(self):
+        for res, rl, name in self.derived:
+            got = outcome(lambda: [res[i] for i in range(len(rl))])
+            if got != ('ok', rl) or list(res) != rl or len(res) != len(rl):
+                self.fail('derived-set', 'the set returned earlier by %s() no longer reads as it should: by index %s, '
+                          'by iteration %s, expected %s' % (name, trim(got), trim(list(res)), trim(rl)))
+            for x in rl[:3] + rl[-3:]:
+                if res.index(x) != rl.index(x):
+                    self.fail('derived-set', 'index(%r) of the set returned earlier by %s() is %r, expected %r'
+                              % (x, name, res.index(x), rl.index(x)))
+            if self.stats is not None:
+                self.stats.monitor_evals += 1
 
     def step(self, op):
         su, s, L, st = self.su, self.s, self.L, self.stats
@@ -238,6 +252,15 @@ class Run(object):
                 self.fail('result[%s]' % name, 'returned self')
             if st is not None:
                 st.monitor_evals += 1
+            if isinstance(res, su.IndexedSet) and name != 'rsub':
+                # the new set and the one it was computed from must be independent: mutate the result next to
+                # where self has (or may have) tombstones, keep it alive, and re-read both after later steps
+                rl = list(want)
+                if rl:
+                    victim = rl[min(len(rl) - 1, (len(rl) * 3) // 7)]
+                    res.remove(victim)
+                    rl.remove(victim)
+                self.derived = (self.derived + [(res, rl, name)])[-3:]
         elif name in ('issubset', 'issuperset', 'isdisjoint'):
             operand = mk_operand(su, op[1][0], op[1][1])
             py = getattr(set(L), name)(operand)
@@ -333,10 +356,28 @@ class Check(object):
         ops = [['update', [['tuple', list(range(size))]]]]
         live = list(range(size))
         nxt = size
+        clustered = r.random() < 0.5
+        window = []
+        if clustered:
+            for _c in range(r.randint(1, 3)):
+                c = r.randrange(size)
+                window += [y for y in range(c - 4, c + 5) if 0 <= y < size]
+            r.shuffle(window)
         for _ in range(r.randint(5, 120)):
             x = r.random()
             if not live:
                 break
+            if clustered and window and x < 0.55:
+                y = window.pop()
+                if y in live:
+                    live.remove(y)
+                    ops.append(['remove', y])
+                continue
+            if x > 0.93 and live:
+                near = [live[r.randrange(len(live))] for _ in range(3)] + [nxt + 7]
+                ops.append([r.choice(['union', 'or', 'difference', 'intersection', 'symmetric_difference']),
+                            [[r.choice(['list', 'set', 'iset']), near]]])
+                continue
             if x < 0.45:
                 ops.append(['remove', live.pop(max(0, len(live) - 1 - r.choice([0, 0, 1, 1, 2, 3, 5])))])
             elif x < 0.6:
@@ -420,6 +461,7 @@ class Check(object):
                     op = ['pop', int(op[1][1] * 2 * n) - n]      # a valid index in [-n, n)
             try:
                 run.step(op)
+                run.check_derived()
                 if not long_ or len(run.L) <= 40:
                     run.readout(full=len(run.L) <= 40, rng=rng)
                 elif i % 50 == 0 or i == len(h['ops']) - 1:
